@@ -6,6 +6,8 @@
 -/
 import Driver.Util
 import Jb.Model.HtsParse
+import Jb.Model.Synth
+import Driver.C20
 
 namespace Drv.HtsOp
 open Drv Jb Jb.Hts
@@ -197,5 +199,46 @@ def runFault (pv : Option (Res ParsedVoice)) : P Verdict := do
   let baseKind := (kind.splitOn "+").map (fun k => match k.splitOn ":" with | [a, _, c] => a ++ ":" ++ c | _ => k)
   pure { corr, oracle := orc, nontriv := kind != "none",
          cls := ",".intercalate (baseKind.map fun k => s!"{k}:{res}{if drift then ":drift" else ""}") }
+
+instance : FromFile Float where
+  ofF32 b := (Float32.ofBits b).toFloat
+  ofDecimal s := parseFloatText s
+
+/-- `e2e`: the whole library from the voice files: header defaults, setter history, tree selection with
+    wildcard questions, interpolation, durations, MLPG+GV, vocoder — against `Engine::synthesize`. -/
+def runE2e (voices : List ParsedVoice) : P Verdict := do
+  let kind ← next
+  let nv ← nat; let ns ← nat
+  let dur ← listOf flt
+  let par ← many ns (listOf flt)
+  let gv ← many ns (listOf flt)
+  let iw : IW Float := { nvoices := nv, duration := dur, parameter := par, gv := gv }
+  expect "nops"
+  let k ← nat
+  let ops ← many k Drv.C20.parseOp
+  let nl ← nat
+  let labels ← many nl (do pure ((unesc (← next)).map Char.ofNat))
+  let times ← listOf (do let a ← flt; let b ← flt; pure (a, b))
+  let res ← next
+  let big : Float := Float.ofBits 0x7FEFFFFFFFFFFFFF
+  let m := Synth.synthesize Fix.repaired big voices iw ops (fun c => c.speed == 1.0) labels times
+  if res == "ok" then
+    let w ← listOf flt
+    let corr := match m with
+      | .ok mw =>
+        let scale := maxAbs w
+        let finite := w.all fun x => !x.isNaN && !x.isInf
+        firstSome [check (mw.length == w.length) s!"samples: model {mw.length} impl {w.length}",
+                   check (!finite || scale > 1e100 || closeList 1e-6 scale mw w) s!"waveform differs beyond 1e-6·peak (peak {scale}) {firstDiff 1e-6 scale mw w}"]
+      | .panic s => some s!"model panics at {s}; implementation returns {w.length} samples"
+      | .err _ => some "model err"
+    let (bo, ba) := match m with | .ok mw => (countBits mw w, w.length) | _ => (0, 0)
+    pure { corr, oracle := none, nontriv := nl ≥ 1, cls := s!"{kind}:nv{nv}:ops{min k 3}", bitsOk := bo, bitsAll := ba }
+  else
+    let detail ← next
+    let corr := match m with
+      | .ok _ => some s!"implementation {res} ({detail}); model returns a waveform"
+      | _ => none
+    pure { corr, oracle := some s!"synthesis failed: {res} {detail}", nontriv := true, cls := s!"{kind}:fail" }
 
 end Drv.HtsOp
